@@ -60,6 +60,26 @@ needs = {
 "C19-4": ("GenerateNTildei tests safePrimes[0] twice", "a composite (or 1) in the second slot only"),
 "C20-3": ("ECDSA nonce share k drawn from PartialKeyRand() instead of Rand()", "parameters carrying a seeded / repeating SetPartialKeyRand (the key-generation source): R repeats across sessions"),
 "C20-4": ("EdDSA BuildLocalSaveDataSubset returns sourceData itself for the full committee; PrepareForSigning reduces ids mod q in place", "EdDSA, signer set = all saved parties in saved order, a party id >= q: stored Ks rewritten"),
+"C02-3": ("EdDSA PrepareForSigning multiplies into the caller's share (wi aliases xi): stored Xi becomes x_i*lambda_i", "the second and later signing sessions that reuse the same in-memory key objects: every signer aborts in finalization"),
+"C02-4": ("EdDSA finalize sums the partial signatures modulo the process-global curve's order", "the global default curve left at secp256k1 while the parameters carry Edwards: S = S_true + L, accepted by the library's own check, rejected by standard verifiers"),
+"C09-3": ("ECDSA resharing round 4 builds ContextJ with append(round.temp.ssid, ...) inside the per-peer modProof goroutines", "a 31-byte session id (1 in 256) received through the wire format (spare capacity), modProof on, >= 3 new members: data race, honest member blamed"),
+"C09-4": ("ECDSA keygen round 2 DLN callbacks capture the loop variables (go.mod says go 1.16)", "a peer that is not the last party sends a rejected / unparsable DLN proof: wrong culprit; race detector flags the unparsable case"),
+"C10-3": ("SHA512_256i_TAGGED caches the last tag digest keyed by the caller's slice itself", "two proofs made back-to-back from one scratch buffer rewritten in place with a same-length session: the second proof uses the first session's digest"),
+"C10-4": ("ProofFac.Verify treats a nil session as a missing argument", "the empty session spelled nil (prover accepts it): every honest no-small-factor proof rejected"),
+"C11-3": ("Paillier key proof's small-prime screen batched into 64-bit products; the last open batch (991*997) is dropped", "a modulus divisible by 991 or 997 and no smaller prime, with gcd(N,phi)=1 and genuine roots from the library prover"),
+"C11-4": ("ProofBobWC.Verify computes q^7 in place: q3 and q7 are the same object (q^7)", "a multiplier between q^3 and about q^6 with a consistent ciphertext and point"),
+"C13-3": ("paillier HomoMult plaintext guard rewritten as m.Sign() <= 0", "b = 0: BobMid / BobMidWC refuse an honest run"),
+"C13-4": ("ECPoint.Equals compares Y with itself (P equals -P)", "with-check variant, cheating Bob known by B = b*G who multiplies by q-b and sends the mask point negated"),
+"C14-3": ("HomoMult scalar upper bound compared against N^2 instead of N", "a scalar in [N, N^2)"),
+"C14-4": ("HomoAdd multiplies into its first operand (result aliases c1)", "the first operand is used again after the call"),
+"C15-3": ("ReConstruct Lagrange denominator operands swapped: result multiplied by (-1)^(k-1)", "an even number of shares: q - secret is returned"),
+"C15-4": ("Share.Verify zero guard tests sigma twice, never the id", "an id that is 0 mod q: panic on secp256k1, acceptance of (q, secret) on edwards25519"),
+"C16-3": ("SHA512_256 refactored through big.Int: leading zero bytes of an element are stripped", "an element or tag that starts with 0x00"),
+"C16-4": ("commitment builder AddPart silently skips empty parts", "a layout containing a part of length 0: round trip loses it, different layouts share one commitment"),
+"C17-3": ("isOnCurve range test moved into a helper written v <= p", "a coordinate exactly equal to the field prime whose reduction is on the curve: four non-canonical torsion points on edwards25519"),
+"C17-4": ("GobEncode writes x's length as y's length prefix", "coordinates of different byte lengths (one below 2^248): about 1 point in 128"),
+"C18-3": ("ExtendedKey.String() appends into k.Version (spare capacity of the parse buffer)", "a key parsed from its string form whose descendants are serialised before the parsed object is used again: its chain code / fingerprint are overwritten"),
+"C18-4": ("depth guard written pk.Depth+1 > maxDepth on a uint8", "a parent at depth exactly 255: the child comes back with depth 0"),
 }
 conf = {}
 for f in glob.glob('/tmp/seed-confirm/*.result'):
